@@ -219,5 +219,5 @@ Proof. vm_compute. repeat split; auto. Qed.
 
 Example nontrivial :
   let evs := [Append false; Append true; Replica; Replica; MetaFlush; FlushCommit; Restart; Replica; Replica; Append false; FlushAck; WalSync; Replica; MetaFlush; FlushCommit; FlushAck; WalSync; Restart] in
-  let s := run evs in run_ok init evs = true /\ (la s, gcd s, k s, pseq s, pdata s, ndisk s) = (3, 3, 3, 3, [3; 2; 1], [2; 0]).
+  let s := run evs in run_ok init evs = true /\ (la s, gcd s, k s, pseq s, pdata s, ndisk s) = (3, 3, 3, 3, [3; 2; 1], [0; 5; 1]).
 Proof. vm_compute. split; reflexivity. Qed.
